@@ -5,7 +5,7 @@ import z3
 from z3 import And, Exists, ForAll, If, Implies, Int as ZInt, IntVal, Not, Or, Real as ZReal, RealVal, ToInt, ToReal
 
 from .engine import MULF, Contract, LoopSpec, Registry
-from .values import (Bool, Const, FixedList, FnOf, Int, IntMapOf, ListOf, NoneT, ObjOf, OpaqueOf, Real, Same, TupleOf,
+from .values import (AliasOf, Bool, Const, EmptyMap, FixedList, FnOf, Int, IntMapOf, ListOf, NoneT, ObjOf, OpaqueOf, Real, Same, TupleOf,
                      to_real, to_z3, uid)
 
 REG = Registry()
@@ -37,10 +37,14 @@ def forall(n, body, lo=None, hi=None, name="q", pats=None):
     if isinstance(b, bool):
         b = z3.BoolVal(b)
     if pats:
-        try:
-            return ForAll(vs, b, patterns=pats(*vs))
-        except z3.Z3Exception:
-            pass  # the pattern term is not a legal trigger in this state (e.g. an if-then-else): let z3 choose
+        from .libmodels import legal_pattern
+
+        ps = [p for p in pats(*vs) if legal_pattern(p, vs)]
+        if ps:
+            try:
+                return ForAll(vs, b, patterns=ps)
+            except z3.Z3Exception:
+                pass  # not a legal trigger in this state: let z3 choose
     return ForAll(vs, b)
 
 
